@@ -1261,13 +1261,15 @@ impl Server {
             None
         };
         
+        // Commands whose outcome is random (SPOP) or depends on the clock (XADD with an automatic
+        // ID) are logged after execution, rewritten so that they replay to the same outcome
+        let logged_by_outcome = command_name == "SPOP"
+            || (command_name == "XADD"
+                && matches!(parts.get(2), Some(RespFrame::BulkString(Some(id))) if id.as_slice() == b"*"));
+        
         // Log to AOF for write commands
-        if let Some(aof) = &self.aof_engine {
-            if self.is_write_command(&command_name) {
-                if let Err(e) = aof.append_command_in_db(db, parts) {
-                    eprintln!("Failed to append to AOF: {}", e);
-                }
-            }
+        if !logged_by_outcome && self.is_write_command(&command_name) {
+            self.log_to_aof(db, parts);
         }
         
         // Route to command handler
@@ -1553,6 +1555,12 @@ impl Server {
             _ => Ok(RespFrame::error(format!("ERR unknown command '{}'", command_name))),
         };
         
+        if logged_by_outcome {
+            if let Ok(reply) = &result {
+                self.log_outcome_to_aof(db, &command_name, parts, reply);
+            }
+        }
+        
         // Auto-save change recording - always enabled (independent of monitoring)
         if self.is_write_command(&command_name) {
             if let Ok(resp) = &result {
@@ -1661,6 +1669,32 @@ impl Server {
             if let Err(e) = aof.append_command_in_db(db, parts) {
                 eprintln!("Failed to append to AOF: {}", e);
             }
+        }
+    }
+    
+    /// Log SPOP as the SREM of the members it removed and XADD * with the ID it was given
+    fn log_outcome_to_aof(&self, db: usize, command_name: &str, parts: &[RespFrame], reply: &RespFrame) {
+        match command_name {
+            "SPOP" => {
+                let members: Vec<RespFrame> = match reply {
+                    RespFrame::BulkString(Some(_)) => vec![reply.clone()],
+                    RespFrame::Array(Some(items)) => items.clone(),
+                    _ => Vec::new(),
+                };
+                if !members.is_empty() && parts.len() >= 2 {
+                    let mut srem = vec![RespFrame::from_string("SREM"), parts[1].clone()];
+                    srem.extend(members);
+                    self.log_to_aof(db, &srem);
+                }
+            }
+            "XADD" => {
+                if let RespFrame::BulkString(Some(_)) = reply {
+                    let mut xadd = parts.to_vec();
+                    xadd[2] = reply.clone();
+                    self.log_to_aof(db, &xadd);
+                }
+            }
+            _ => {}
         }
     }
     
